@@ -6,6 +6,8 @@ import (
 	"fmt"
 	"os"
 	"path/filepath"
+	"runtime/debug"
+	"runtime/pprof"
 	"strconv"
 	"strings"
 
@@ -21,6 +23,12 @@ func main() {
 	verif := flag.String("verif", "", "verif dir (default: parent of the binary's dir or /verif)")
 	explain := flag.Bool("explain", false, "print every obligation")
 	flag.Parse()
+	debug.SetGCPercent(1000) // the loaded program is a large, long-lived heap; avoid rescanning it
+	if pf := os.Getenv("RTPCHECK_PROF"); pf != "" {
+		f, _ := os.Create(pf)
+		_ = pprof.StartCPUProfile(f)
+		defer pprof.StopCPUProfile()
+	}
 	if *tier == "" {
 		*tier = os.Getenv("VERIF_TIER")
 	}
@@ -94,5 +102,6 @@ func main() {
 			exit = code
 		}
 	}
+	pprof.StopCPUProfile()
 	os.Exit(exit)
 }
